@@ -93,7 +93,13 @@ func main() {
 		}
 	}
 	for dst, src := range c.Replace {
-		replace[filepath.Join(repo, dst)] = filepath.Join(harness, src)
+		if !filepath.IsAbs(src) {
+			src = filepath.Join(harness, src)
+		}
+		if _, err := os.Stat(src); err != nil {
+			die("replace source %s: %v", src, err)
+		}
+		replace[filepath.Join(repo, dst)] = src
 	}
 	pkgs := make([]string, 0, len(c.Rewrite))
 	for p := range c.Rewrite {
@@ -123,10 +129,14 @@ func main() {
 			}
 			seen[n] = true
 			src := filepath.Join(dir, n)
+			in := src
+			if rep, ok := replace[src]; ok {
+				in = rep // a replaced file (mutation / candidate fix) is instrumented like the original
+			}
 			outp := filepath.Join(*work, strings.ReplaceAll(pkg, "/", "_")+"__"+n)
-			changed, err := rewriteFile(src, outp, r, pointHits, pkg)
+			changed, err := rewriteFile(in, outp, r, pointHits, pkg)
 			if err != nil {
-				die("rewrite %s: %v", src, err)
+				die("rewrite %s: %v", in, err)
 			}
 			if changed {
 				replace[src] = outp
